@@ -52,6 +52,13 @@ def rule_E1(F, R, include_tests=False):
             if e['k'] == 'Adt' and canon(e['adt']) == BDD and e['variant'] == 'Choice':
                 R.count('E1:Choice-constructor-sites')
                 ok = name in allowed
+                if not ok:
+                    # a new private helper that only the allowed functions call works on their behalf (`index_symbols` behind the From conversion)
+                    import facts as _facts
+                    base_ = name.split('::{closure')[0]
+                    if base_ not in _facts.baseline_fns():
+                        roots = _facts.baseline_roots(c, base_)
+                        ok = bool(roots) and roots <= allowed
                 R.obligation(ok, 'E1 %s %s' % (name, e['loc']))
                 if not ok:
                     R.violation('%s / E1 / BDD::Choice constructor' % name, 'E1',
